@@ -134,5 +134,20 @@ pub mod scc {
         pub fn remove_sync(&mut self, k: &K)
             ensures final(self)@ == old(self)@.remove(*k),
         { unimplemented!() }
+        /// scc: removes the entry and hands it to the caller
+        #[verifier::external_body]
+        pub fn remove_async(&mut self, k: &K) -> (r: Option<(K, V)>)
+            ensures
+                final(self)@ == old(self)@.remove(*k),
+                !old(self)@.contains_key(*k) ==> r is None,
+                old(self)@.contains_key(*k) ==> r == Some((*k, old(self)@[*k])),
+        { unimplemented!() }
+        /// scc: inserts only if the key is absent; an occupied key is left alone and the pair comes back in Err
+        #[verifier::external_body]
+        pub fn insert_async(&mut self, k: K, v: V) -> (r: Result<(), (K, V)>)
+            ensures
+                !old(self)@.contains_key(k) ==> r is Ok && final(self)@ == old(self)@.insert(k, v),
+                old(self)@.contains_key(k) ==> r is Err && final(self)@ == old(self)@,
+        { unimplemented!() }
     }
 }
